@@ -8,6 +8,7 @@ use crate::pipeline::*;
 use crate::semcheck::*;
 use crate::semgen::*;
 use crate::synprops::{print_program, Printed};
+use oq3_source_file::SourceTrait;
 use serde_json::json;
 use std::collections::BTreeMap;
 
@@ -530,4 +531,84 @@ pub fn inject_syntax_fault(src: &mut Src, text: &str) -> String {
         _ => v.insert(i, " if ".into()),
     }
     v.concat()
+}
+
+// ---------------- C12 semantic half ----------------
+
+pub fn check_c12_semantic(text: &str, out: &mut Vec<Failure>) -> Option<(usize, bool)> {
+    if !clean_parse(text) {
+        return None;
+    }
+    let res = analyze(text).ok()?;
+    let r = guarded(|| {
+        let mut fails: Vec<(String, String)> = vec![];
+        let tree = res.syntax_result().syntax_ast().map(|a| a.syntax_node());
+        let mut ranges = std::collections::HashSet::new();
+        if let Some(t) = &tree {
+            for n in t.descendants() {
+                let r = n.text_range();
+                ranges.insert((usize::from(r.start()), usize::from(r.end())));
+            }
+        }
+        let mut errs = vec![];
+        all_semantic_errors(res.semantic_errors(), &mut errs);
+        let mut multibyte_before = false;
+        for (kind, s, e, _path) in &errs {
+            let k = kind_base(kind);
+            if s > e || *e > text.len() {
+                fails.push((format!("C12:semantic:range-out-of-bounds:{k}"), format!("{s}..{e} len {}", text.len())));
+                continue;
+            }
+            if !text.is_char_boundary(*s) || !text.is_char_boundary(*e) {
+                fails.push((format!("C12:semantic:range-not-char-boundary:{k}"), format!("{s}..{e}")));
+                continue;
+            }
+            if !ranges.contains(&(*s, *e)) {
+                fails.push((format!("C12:semantic:range-is-not-a-node:{k}"), format!("{s}..{e} {:?}", &text[*s..*e])));
+            }
+            if text[..*s].len() != text[..*s].chars().count() {
+                multibyte_before = true;
+            }
+        }
+        (fails, errs.len(), multibyte_before)
+    });
+    match r {
+        Ok((fails, n, mb)) => {
+            for (k, d) in fails {
+                out.push(Failure::new(k, json!({"input": {"source": text}, "actual": d})));
+            }
+            Some((n, mb))
+        }
+        Err(p) => {
+            out.push(Failure::new(format!("C12:semantic:{}", panic_key(&p)), json!({"input": {"source": text}, "actual": p.msg})));
+            Some((0, false))
+        }
+    }
+}
+
+pub fn run_c12_semantic(ctx: &RunCtx) {
+    let n = ctx.pick(60_000u64, 5_000_000u64);
+    for (name, profile) in [("faulty", Profile::faulty()), ("usage", Profile::usage()), ("scope-stress", Profile::scope_stress())] {
+        let mut profile = profile;
+        profile.unicode_names = true;
+        ctx.random(&format!("semantic-{name}"), n, 1200, |src| {
+            let style = [Style::Minimal, Style::Spaced, Style::Wild][src.below(3)];
+            let prog = gen_program(src, &profile);
+            // non-ASCII material before the diagnostics: a leading comment and unicode names
+            let pr = print_program(src, &prog, style);
+            let text = if src.bool() { format!("// ünïcödé 中文 😀\n{}", pr.text) } else { pr.text };
+            let mut rep = CaseReport::default();
+            match check_c12_semantic(&text, &mut rep.failures) {
+                None => rep.discarded = true,
+                Some((n, mb)) => {
+                    if n >= 1 {
+                        rep.nontrivial = Some(fnv64(text.as_bytes()));
+                    }
+                    rep.class(if mb { "diagnostic-after-multibyte" } else if n > 0 { "diagnostic" } else { "no-diagnostic" });
+                }
+            }
+            rep.sample = Some(text);
+            rep
+        });
+    }
 }
